@@ -438,6 +438,15 @@ Fixpoint ls_run (s : slru) (os : list sop) : res (slru * list hout) :=
   | o :: rest => do (s1, r) <- ls_step s o; do (s2, rs) <- ls_run s1 rest; Ok (s2, r :: rs)
   end.
 
+Lemma slru_run_refines : forall os h s ls, RS [] h s ls -> slru_inv ls ->
+            exists h1 s1 ls1 outs, hs_run h s os = HOk (h1, s1, outs) /\ ls_run ls os = Ok (ls1, outs) /\ RS [] h1 s1 ls1.
+Proof.
+ induction os as [|o rest IH]; intros h s ls HR Hinv; [cbn; eauto 10|].
+    cbn [hs_run ls_run].
+    destruct (slru_step_refines [] h s ls o HR Hinv) as (h1 & s1 & ls1 & r & -> & -> & HR1 & Hinv1). cbn [hbind bind].
+    destruct (IH h1 s1 ls1 HR1 Hinv1) as (h2 & s2 & ls2 & outs & -> & -> & HR2). cbn [hbind bind]. eauto 10.
+Qed.
+
 Theorem slru_history_safe pc fc os :
   1 <= pc -> 1 <= fc ->
   exists h s ls outs h',
@@ -446,12 +455,7 @@ Theorem slru_history_safe pc fc os :
     hs_drop h s = HOk h' /\ (forall a, cells h' a = Free).
 Proof.
   intros H1 H2.
-  assert (G : forall os h s ls, RS [] h s ls -> slru_inv ls ->
-            exists h1 s1 ls1 outs, hs_run h s os = HOk (h1, s1, outs) /\ ls_run ls os = Ok (ls1, outs) /\ RS [] h1 s1 ls1).
-  { clear. induction os as [|o rest IH]; intros h s ls HR Hinv; [cbn; eauto 10|].
-    cbn [hs_run ls_run].
-    destruct (slru_step_refines [] h s ls o HR Hinv) as (h1 & s1 & ls1 & r & -> & -> & HR1 & Hinv1). cbn [hbind bind].
-    destruct (IH h1 s1 ls1 HR1 Hinv1) as (h2 & s2 & ls2 & outs & -> & -> & HR2). cbn [hbind bind]. eauto 10. }
+  pose proof slru_run_refines as G.
   destruct (G os _ _ _ (hs_new_refines pc fc) (slru_new_inv pc fc H1 H2)) as (h & s & ls & outs & E1 & E2 & HR).
   destruct (hs_drop_ok h s ls HR) as (h' & Ed & Hall).
   exists h, s, ls, outs, h'. auto.
